@@ -716,6 +716,7 @@ func genC18(ctx *fw.Ctx) []fw.Case {
 		b := b
 		cases = append(cases, fw.Case{ID: fmt.Sprintf("numeric-forms/%d", b), Run: func(r *fw.Rec) { c18Numeric(r, b, 16) }})
 	}
+	cases = append(cases, fw.Case{ID: "ordering-pairs/cmpxchg", Run: c18CmpXchgPairs})
 	for _, k := range []string{"global", "global-declaration", "declaration", "definition", "alias"} {
 		k := k
 		cases = append(cases, fw.Case{ID: "header-combinations/" + k, Run: func(r *fw.Rec) { c18HeaderCombos(r, k) }})
@@ -1413,5 +1414,72 @@ func c18HeaderCombos(r *fw.Rec, kind string) {
 		r.Violate(fw.Violation{Key: "header-combination/" + kind, Input: line,
 			What: fmt.Sprintf("%s with linkage=%v preemption=%v visibility=%v dll=%v unnamed_addr=%v tls=%v is printed as `%s` and read back as linkage=%v preemption=%v visibility=%v dll=%v unnamed_addr=%v tls=%v (found=%v)",
 				kind, c.l, c.p, c.v, c.d, c.u, c.t, fw.Trunc(line, 200), g.l, g.p, g.v, g.d, g.u, g.t, ok)})
+	}
+}
+
+// c18CmpXchgPairs: cmpxchg carries two atomic orderings; every pair LLVM
+// accepts is built through the API, printed, parsed back, and both slots
+// compared (a rule that derives one ordering from the other loses a keyword
+// that a single-slot round trip never sees).
+func c18CmpXchgPairs(r *fw.Rec) {
+	ords := []enum.AtomicOrdering{enum.AtomicOrderingUnordered, enum.AtomicOrderingMonotonic, enum.AtomicOrderingAcquire, enum.AtomicOrderingRelease, enum.AtomicOrderingAcquireRelease, enum.AtomicOrderingSequentiallyConsistent}
+	for _, so := range ords {
+		for _, fo := range ords {
+			for _, weak := range []bool{false, true} {
+				w := ""
+				if weak {
+					w = "weak "
+				}
+				probe := fmt.Sprintf("define void @f(i32* %%p) {\n  %%r = cmpxchg %si32* %%p, i32 0, i32 1 %s %s\n  ret void\n}\n", w, so, fo)
+				ok, _, err := llvmref.Accepts(probe)
+				if err != nil {
+					r.Inconclusive("llvm tool failure")
+					return
+				}
+				if !ok {
+					r.Tally("ordering_pairs", "llvm-invalid(not judged)")
+					continue
+				}
+				m := ir.NewModule()
+				f := m.NewFunc("f", types.Void, ir.NewParam("p", types.I32Ptr))
+				b := f.NewBlock("")
+				cx := b.NewCmpXchg(f.Params[0], irconst.NewInt(types.I32, 0), irconst.NewInt(types.I32, 1), so, fo)
+				cx.Weak = weak
+				b.NewRet(nil)
+				text, pp := printGuard(m)
+				if pp != "" {
+					r.Violate(fw.Violation{Key: "ordering-pair-print-panic/cmpxchg", What: firstLine(pp)})
+					continue
+				}
+				r.Eval(1)
+				check := func(stage, t string) bool {
+					m2, perr, pmsg := parseGuard("c18-cmpxchg", t)
+					if pmsg != "" || perr != nil {
+						r.Violate(fw.Violation{Key: "ordering-pair-rejected/cmpxchg/" + stage, Input: t, What: "not accepted by the parser"})
+						return false
+					}
+					var got *ir.InstCmpXchg
+					for _, inst := range m2.Funcs[0].Blocks[0].Insts {
+						if c, ok := inst.(*ir.InstCmpXchg); ok {
+							got = c
+						}
+					}
+					if got == nil || got.SuccessOrdering != so || got.FailureOrdering != fo || got.Weak != weak {
+						obs := "no cmpxchg"
+						if got != nil {
+							obs = fmt.Sprintf("success=%v failure=%v weak=%v", got.SuccessOrdering, got.FailureOrdering, got.Weak)
+						}
+						r.Violate(fw.Violation{Key: fmt.Sprintf("ordering-pair/cmpxchg/%s", stage), Input: t,
+							What: fmt.Sprintf("cmpxchg %ssuccess=%v failure=%v (%s) reads back as %s", w, so, fo, stage, obs)})
+						return false
+					}
+					return true
+				}
+				if check("llvm-spelling", probe) && check("printed", text) {
+					r.Nontrivial(fmt.Sprintf("cmpxchg/%v/%v/%v", so, fo, weak))
+					r.Tally("ordering_pairs", "cmpxchg-round-trip")
+				}
+			}
+		}
 	}
 }
